@@ -208,6 +208,121 @@ Example available_unrepaired_hands_out_stopped :
   ~ In 1%nat (fst (available [(0%nat, true); (1%nat, false)])).
 Proof. split; [right; left; reflexivity|simpl; intros [H|[]]; discriminate]. Qed.
 
+(* ------------------------------------------------------------------ the routee pool under failures *)
+(* failure signals come from children of the router; the unrepaired resume handler is excluded *)
+Definition pool_op_ok (children : list nat) (op : pool_op) : Prop :=
+  match op with
+  | PSignal _ DResumeUnrepaired => False
+  | PSignal r _ => In r children
+  | _ => True
+  end.
+
+(* the router's map has no duplicates, holds only children, and holds every running child *)
+Definition pool_inv (children : list nat) (p : pool) : Prop :=
+  NoDup (p_map p) /\ (forall r, In r (p_map p) -> In r children) /\
+  (forall r, In r children -> p_status p r = RRunning -> In r (p_map p)).
+
+Lemma map_add_in r m x : In x (map_add r m) <-> x = r \/ In x m.
+Proof.
+  unfold map_add. destruct (existsb (Nat.eqb r) m) eqn:E.
+  - split; [intros H; right; assumption|intros [->|H]; [|assumption]].
+    apply existsb_exists in E. destruct E as [y [Hy E]]. apply Nat.eqb_eq in E. subst. assumption.
+  - simpl. split; intros [H|H]; auto.
+Qed.
+
+Lemma map_add_nodup r m : NoDup m -> NoDup (map_add r m).
+Proof.
+  intros H. unfold map_add. destruct (existsb (Nat.eqb r) m) eqn:E; [assumption|].
+  constructor; [|assumption]. intros Hin. assert (existsb (Nat.eqb r) m = true); [|congruence].
+  apply existsb_exists. exists r. split; [assumption|apply Nat.eqb_refl].
+Qed.
+
+Lemma set_status_eq st r v : set_status st r v r = v.
+Proof. unfold set_status. rewrite Nat.eqb_refl. reflexivity. Qed.
+
+Lemma set_status_neq st r v x : x <> r -> set_status st r v x = st x.
+Proof. intros H. unfold set_status. destruct (Nat.eqb_spec x r); [contradiction|reflexivity]. Qed.
+
+Lemma inv_after_down children p r v : v <> RRunning -> pool_inv children p ->
+  pool_inv children (mkPool (set_status (p_status p) r v) (p_map p)).
+Proof.
+  intros Hv [Hnd [Hsub Hrun]]. repeat split; cbn [p_map p_status]; try assumption.
+  intros x Hx Hs. destruct (Nat.eq_dec x r) as [->|Hne].
+  - rewrite set_status_eq in Hs. contradiction.
+  - rewrite set_status_neq in Hs by assumption. apply Hrun; assumption.
+Qed.
+
+Lemma inv_after_back children p r : In r children -> pool_inv children p ->
+  pool_inv children (mkPool (set_status (p_status p) r RRunning) (map_add r (p_map p))).
+Proof.
+  intros Hc [Hnd [Hsub Hrun]]. repeat split; cbn [p_map p_status].
+  - apply map_add_nodup. assumption.
+  - intros x Hx. apply map_add_in in Hx. destruct Hx as [->|Hx]; [assumption|apply Hsub; assumption].
+  - intros x Hx Hs. apply map_add_in. destruct (Nat.eq_dec x r) as [->|Hne]; [left; reflexivity|right].
+    rewrite set_status_neq in Hs by assumption. apply Hrun; assumption.
+Qed.
+
+Lemma pool_step_inv children p op : pool_op_ok children op -> pool_inv children p ->
+  pool_inv children (fst (pool_step p op)).
+Proof.
+  intros Hop Hinv. destruct op as [r|r| |r d]; cbn [pool_step fst].
+  - destruct (is_running (p_status p) r); [apply inv_after_down; [discriminate|assumption]|destruct p; assumption].
+  - apply inv_after_down; [discriminate|assumption].
+  - destruct Hinv as [Hnd [Hsub Hrun]]. repeat split; cbn [p_map p_status].
+    + apply NoDup_filter. assumption.
+    + intros x Hx. apply filter_In in Hx. apply Hsub. tauto.
+    + intros x Hx Hs. apply filter_In. split; [apply Hrun; assumption|]. unfold is_running. rewrite Hs. reflexivity.
+  - destruct d; cbn [pool_op_ok] in Hop; try contradiction.
+    + destruct (p_status p r); try assumption. apply inv_after_back; assumption.
+    + destruct (p_status p r); try assumption. apply inv_after_back; assumption.
+    + destruct Hinv as [Hnd [Hsub Hrun]]. cbn [fst]. repeat split; cbn [p_map p_status].
+      * apply NoDup_filter. assumption.
+      * intros x Hx. apply filter_In in Hx. apply Hsub. tauto.
+      * intros x Hx Hs. unfold set_status in Hs. destruct (Nat.eqb_spec x r) as [Heq|Hne]; [discriminate|].
+        apply filter_In. split; [apply Hrun; assumption|].
+        destruct (Nat.eqb_spec x r); [contradiction|reflexivity].
+Qed.
+
+Lemma pool_run_inv children ops : forall p, Forall (pool_op_ok children) ops -> pool_inv children p ->
+  pool_inv children (pool_run p ops).
+Proof.
+  induction ops as [|op ops IH]; intros p Hops Hinv; cbn [pool_run]; [assumption|].
+  inversion Hops; subst. apply IH; [assumption|]. apply pool_step_inv; assumption.
+Qed.
+
+Lemma pool_init_inv children : NoDup children -> pool_inv children (pool_init children).
+Proof. intros H. unfold pool_init. repeat split; cbn [p_map p_status]; auto. Qed.
+
+(* after ANY history of routee failures, outside stops, Broadcasts and handled failure signals (restart,
+   resume, stop; any interleaving), a Broadcast is told exactly once to every running routee of the
+   router and to nobody else *)
+Lemma fanout_after_failures children ops r : NoDup children -> Forall (pool_op_ok children) ops ->
+  let p := pool_run (pool_init children) ops in
+  forall told, snd (pool_step p PBroadcast) = Some told ->
+  count_occ Nat.eq_dec told r = if (if in_dec Nat.eq_dec r children then is_running (p_status p) r else false) then 1%nat else 0%nat.
+Proof.
+  intros Hnd Hops p told E. pose proof (pool_run_inv children ops _ Hops (pool_init_inv children Hnd)) as [Hn [Hsub Hrun]].
+  fold p in Hn, Hsub, Hrun. cbn [pool_step snd] in E. inversion E; subst told. rewrite fanout_each_once.
+  destruct (in_dec Nat.eq_dec r children) as [Hc|Hc].
+  - destruct (is_running (p_status p) r) eqn:Er.
+    + apply NoDup_count_occ'; [apply NoDup_filter; assumption|]. apply filter_In. split; [|assumption].
+      apply Hrun; [assumption|]. unfold is_running in Er. destruct (p_status p r); try discriminate; reflexivity.
+    + apply count_occ_not_In. intros Hin. apply filter_In in Hin. destruct Hin as [_ Hin]. congruence.
+  - apply count_occ_not_In. intros Hin. apply filter_In in Hin. apply Hc. apply Hsub. tauto.
+Qed.
+
+(* the unrepaired resume handler: routee 0 fails, a Broadcast is handled before its signal, the routee is
+   resumed — and the next Broadcast skips it although it runs *)
+Example resume_unrepaired_skips_live_routee :
+  let p := pool_run (pool_init [0;1;2]%nat) [PFail 0%nat; PBroadcast; PSignal 0%nat DResumeUnrepaired] in
+  is_running (p_status p) 0%nat = true /\ snd (pool_step p PBroadcast) = Some [1;2]%nat.
+Proof. split; reflexivity. Qed.
+
+Example resume_repaired_reaches_live_routee :
+  let p := pool_run (pool_init [0;1;2]%nat) [PFail 0%nat; PBroadcast; PSignal 0%nat DResume] in
+  snd (pool_step p PBroadcast) = Some [0;1;2]%nat.
+Proof. reflexivity. Qed.
+
 (* ------------------------------------------------------------------ non-vacuity *)
 Example rt_example :
   map (fun e => snd (fst e)) (rt_run 0 [RtRoute [10;11;12]%nat; RtRoute [10;11;12]%nat; RtRoute [10;11;12]%nat;
